@@ -1,0 +1,394 @@
+//go:build verif
+
+package cty
+
+import (
+	"fmt"
+	"math/big"
+	"reflect"
+	"sort"
+	"strings"
+
+	"github.com/zclconf/go-cty/cty/set"
+)
+
+// This file is compiled only with the build tag "verif". It gives the
+// verification harness in /verif a canonical structural dump of values and
+// helper objects, including internals that no accessor shows (payload kinds,
+// bucket layout of sets, the working state of a refinement builder), so that
+// "nothing changed" can be checked after every step of a simulated history.
+
+// VerifFingerprint returns a canonical dump of the value's type and payload.
+func VerifFingerprint(v Value) string {
+	var b strings.Builder
+	verifFpVal(&b, v.ty, v.v)
+	return b.String()
+}
+
+// VerifFingerprintType returns a canonical dump of a type.
+func VerifFingerprintType(t Type) string {
+	var b strings.Builder
+	verifFpType(&b, t)
+	return b.String()
+}
+
+// VerifFingerprintValueSet dumps a ValueSet including its bucket layout.
+func VerifFingerprintValueSet(s ValueSet) string {
+	var b strings.Builder
+	ety := s.ElementType()
+	b.WriteString("valueset<")
+	verifFpType(&b, ety)
+	b.WriteString(">")
+	verifFpSet(&b, ety, s.s)
+	return b.String()
+}
+
+// VerifFingerprintPathSet dumps a PathSet including its bucket layout.
+func VerifFingerprintPathSet(s PathSet) string {
+	var b strings.Builder
+	b.WriteString("pathset")
+	ids, buckets := s.set.VerifBuckets()
+	for i, id := range ids {
+		fmt.Fprintf(&b, "{%d:", id)
+		for _, p := range buckets[i] {
+			verifFpPath(&b, p)
+			b.WriteString(";")
+		}
+		b.WriteString("}")
+	}
+	return b.String()
+}
+
+// VerifFingerprintPath dumps one path.
+func VerifFingerprintPath(p Path) string {
+	var b strings.Builder
+	verifFpPath(&b, p)
+	return b.String()
+}
+
+// VerifFingerprintBuilder dumps the state of a refinement builder.
+func VerifFingerprintBuilder(rb *RefinementBuilder) string {
+	var b strings.Builder
+	b.WriteString("builder(orig=")
+	verifFpVal(&b, rb.orig.ty, rb.orig.v)
+	b.WriteString(",marks=")
+	verifFpMarks(&b, rb.marks)
+	b.WriteString(",wip=")
+	verifFpRefinement(&b, rb.wip)
+	b.WriteString(")")
+	return b.String()
+}
+
+// VerifSetSpareCapacity reports how many buckets of a ValueSet have spare capacity
+// (a coverage probe: the in-place append hazard exists only then).
+func VerifSetSpareCapacity(s ValueSet) int { return s.s.VerifSpareCapacity() }
+
+// VerifSetMaxBucket reports the length of the largest bucket of a ValueSet.
+func VerifSetMaxBucket(s ValueSet) int {
+	_, buckets := s.s.VerifBuckets()
+	m := 0
+	for _, b := range buckets {
+		if len(b) > m {
+			m = len(b)
+		}
+	}
+	return m
+}
+
+func verifFpPath(b *strings.Builder, p Path) {
+	b.WriteString("path[")
+	for _, st := range p {
+		switch s := st.(type) {
+		case GetAttrStep:
+			fmt.Fprintf(b, ".%q", s.Name)
+		case IndexStep:
+			b.WriteString("[")
+			verifFpVal(b, s.Key.ty, s.Key.v)
+			b.WriteString("]")
+		default:
+			fmt.Fprintf(b, "?%T", st)
+		}
+	}
+	b.WriteString("]")
+}
+
+func verifMarkKey(m interface{}) string { return fmt.Sprintf("%T:%#v", m, m) }
+
+func verifFpMarks(b *strings.Builder, marks ValueMarks) {
+	if marks == nil {
+		b.WriteString("nomarks")
+		return
+	}
+	keys := make([]string, 0, len(marks))
+	for m := range marks {
+		keys = append(keys, verifMarkKey(m))
+	}
+	sort.Strings(keys)
+	b.WriteString("marks{")
+	b.WriteString(strings.Join(keys, ","))
+	b.WriteString("}")
+}
+
+func verifFpType(b *strings.Builder, t Type) {
+	switch impl := t.typeImpl.(type) {
+	case nil:
+		b.WriteString("NilType")
+	case pseudoTypeDynamic:
+		b.WriteString("dynamic")
+	case primitiveType:
+		b.WriteByte(byte(impl.Kind))
+	case typeList:
+		b.WriteString("list(")
+		verifFpType(b, impl.ElementTypeT)
+		b.WriteString(")")
+	case typeMap:
+		b.WriteString("map(")
+		verifFpType(b, impl.ElementTypeT)
+		b.WriteString(")")
+	case typeSet:
+		b.WriteString("set(")
+		verifFpType(b, impl.ElementTypeT)
+		b.WriteString(")")
+	case typeTuple:
+		b.WriteString("tuple(")
+		for _, et := range impl.ElemTypes {
+			verifFpType(b, et)
+			b.WriteString(",")
+		}
+		b.WriteString(")")
+	case typeObject:
+		names := make([]string, 0, len(impl.AttrTypes))
+		for n := range impl.AttrTypes {
+			names = append(names, n)
+		}
+		sort.Strings(names)
+		b.WriteString("object(")
+		for _, n := range names {
+			fmt.Fprintf(b, "%q", n)
+			if _, opt := impl.AttrOptional[n]; opt {
+				b.WriteString("?")
+			}
+			b.WriteString(":")
+			verifFpType(b, impl.AttrTypes[n])
+			b.WriteString(",")
+		}
+		// optional names that are not attributes would be malformed; show them
+		var stray []string
+		for n := range impl.AttrOptional {
+			if _, ok := impl.AttrTypes[n]; !ok {
+				stray = append(stray, n)
+			}
+		}
+		sort.Strings(stray)
+		for _, n := range stray {
+			fmt.Fprintf(b, "stray-optional %q,", n)
+		}
+		b.WriteString(")")
+	case *capsuleType:
+		fmt.Fprintf(b, "capsule(%q,%s)", impl.Name, impl.GoType.String())
+	default:
+		fmt.Fprintf(b, "unknown-type-impl(%T)", impl)
+	}
+}
+
+func verifFpFloat(b *strings.Builder, f *big.Float) {
+	if f == nil {
+		b.WriteString("nil-float")
+		return
+	}
+	fmt.Fprintf(b, "num(%s prec=%d mode=%d acc=%d)", f.Text('p', 0), f.Prec(), f.Mode(), f.Acc())
+}
+
+func verifFpRefinement(b *strings.Builder, r unknownValRefinement) {
+	switch r := r.(type) {
+	case nil:
+		b.WriteString("norefine")
+	case *refinementString:
+		if r == nil {
+			b.WriteString("nil-refstring")
+			return
+		}
+		fmt.Fprintf(b, "refstring(null=%d,prefix=%q)", r.isNull, r.prefix)
+	case *refinementNumber:
+		if r == nil {
+			b.WriteString("nil-refnumber")
+			return
+		}
+		fmt.Fprintf(b, "refnumber(null=%d,min=", r.isNull)
+		verifFpVal(b, r.min.ty, r.min.v)
+		fmt.Fprintf(b, ",%t,max=", r.minInc)
+		verifFpVal(b, r.max.ty, r.max.v)
+		fmt.Fprintf(b, ",%t)", r.maxInc)
+	case *refinementCollection:
+		if r == nil {
+			b.WriteString("nil-refcoll")
+			return
+		}
+		fmt.Fprintf(b, "refcoll(null=%d,%d,%d)", r.isNull, r.minLen, r.maxLen)
+	case *refinementNullable:
+		if r == nil {
+			b.WriteString("nil-refnull")
+			return
+		}
+		fmt.Fprintf(b, "refnull(null=%d)", r.isNull)
+	default:
+		fmt.Fprintf(b, "unknown-refinement(%T)", r)
+	}
+}
+
+func verifFpSet(b *strings.Builder, ety Type, s set.Set[interface{}]) {
+	ids, buckets := s.VerifBuckets()
+	b.WriteString("buckets{")
+	for i, id := range ids {
+		fmt.Fprintf(b, "%d#%d:[", id, len(buckets[i]))
+		for _, ev := range buckets[i] {
+			verifFpVal(b, ety, ev)
+			b.WriteString(";")
+		}
+		b.WriteString("]")
+	}
+	b.WriteString("}")
+}
+
+func verifFpVal(b *strings.Builder, ty Type, raw interface{}) {
+	b.WriteString("<")
+	verifFpType(b, ty)
+	b.WriteString(">")
+	if mr, ok := raw.(marker); ok {
+		verifFpMarks(b, mr.marks)
+		b.WriteString("~")
+		raw = mr.realV
+		if _, nested := raw.(marker); nested {
+			b.WriteString("NESTED-MARKER~")
+		}
+	}
+	switch rv := raw.(type) {
+	case nil:
+		b.WriteString("null")
+		return
+	case *unknownType:
+		b.WriteString("unknown:")
+		if rv == nil {
+			b.WriteString("nil-unknownType")
+			return
+		}
+		verifFpRefinement(b, rv.refinement)
+		return
+	}
+	if ty.typeImpl == nil {
+		fmt.Fprintf(b, "payload-without-type(%T)", raw)
+		return
+	}
+	switch {
+	case ty == DynamicPseudoType:
+		fmt.Fprintf(b, "known-dynamic(%T)", raw)
+	case ty == Bool:
+		if bv, ok := raw.(bool); ok {
+			fmt.Fprintf(b, "%t", bv)
+		} else {
+			fmt.Fprintf(b, "badpayload(%T)", raw)
+		}
+	case ty == String:
+		if sv, ok := raw.(string); ok {
+			fmt.Fprintf(b, "%q", sv)
+		} else {
+			fmt.Fprintf(b, "badpayload(%T)", raw)
+		}
+	case ty == Number:
+		if fv, ok := raw.(*big.Float); ok {
+			verifFpFloat(b, fv)
+		} else {
+			fmt.Fprintf(b, "badpayload(%T)", raw)
+		}
+	case ty.IsListType():
+		if l, ok := raw.([]interface{}); ok {
+			ety := ty.ElementType()
+			fmt.Fprintf(b, "[%d:", len(l))
+			for _, ev := range l {
+				verifFpVal(b, ety, ev)
+				b.WriteString(";")
+			}
+			b.WriteString("]")
+		} else {
+			fmt.Fprintf(b, "badpayload(%T)", raw)
+		}
+	case ty.IsTupleType():
+		if l, ok := raw.([]interface{}); ok {
+			etys := ty.TupleElementTypes()
+			fmt.Fprintf(b, "(%d:", len(l))
+			for i, ev := range l {
+				if i < len(etys) {
+					verifFpVal(b, etys[i], ev)
+				} else {
+					fmt.Fprintf(b, "extra(%T)", ev)
+				}
+				b.WriteString(";")
+			}
+			b.WriteString(")")
+		} else {
+			fmt.Fprintf(b, "badpayload(%T)", raw)
+		}
+	case ty.IsMapType():
+		if m, ok := raw.(map[string]interface{}); ok {
+			ety := ty.ElementType()
+			keys := make([]string, 0, len(m))
+			for k := range m {
+				keys = append(keys, k)
+			}
+			sort.Strings(keys)
+			b.WriteString("{")
+			for _, k := range keys {
+				fmt.Fprintf(b, "%q=", k)
+				verifFpVal(b, ety, m[k])
+				b.WriteString(";")
+			}
+			b.WriteString("}")
+		} else {
+			fmt.Fprintf(b, "badpayload(%T)", raw)
+		}
+	case ty.IsObjectType():
+		if m, ok := raw.(map[string]interface{}); ok {
+			atys := ty.AttributeTypes()
+			keys := make([]string, 0, len(m))
+			for k := range m {
+				keys = append(keys, k)
+			}
+			sort.Strings(keys)
+			b.WriteString("obj{")
+			for _, k := range keys {
+				fmt.Fprintf(b, "%q=", k)
+				if aty, ok := atys[k]; ok {
+					verifFpVal(b, aty, m[k])
+				} else {
+					fmt.Fprintf(b, "undeclared(%T)", m[k])
+				}
+				b.WriteString(";")
+			}
+			b.WriteString("}")
+		} else {
+			fmt.Fprintf(b, "badpayload(%T)", raw)
+		}
+	case ty.IsSetType():
+		if s, ok := raw.(set.Set[interface{}]); ok {
+			if r, ok := s.Rules().(setRules); ok {
+				b.WriteString("rules<")
+				verifFpType(b, r.Type)
+				b.WriteString(">")
+			} else {
+				fmt.Fprintf(b, "badrules(%T)", s.Rules())
+			}
+			verifFpSet(b, ty.ElementType(), s)
+		} else {
+			fmt.Fprintf(b, "badpayload(%T)", raw)
+		}
+	case ty.IsCapsuleType():
+		rvv := reflect.ValueOf(raw)
+		if rvv.Kind() == reflect.Ptr && !rvv.IsNil() {
+			fmt.Fprintf(b, "capsule(%#v)", rvv.Elem().Interface())
+		} else {
+			fmt.Fprintf(b, "capsule-badpayload(%T)", raw)
+		}
+	default:
+		fmt.Fprintf(b, "unhandled(%T)", raw)
+	}
+}
